@@ -535,7 +535,7 @@ func r176(c *Ctx, r *R) {
 }
 
 func init() {
-	register(&Rule{ID: "R04.7", Props: []string{"C04"}, Floor: 5, Title: "unpinning sharded content also unpins its cluster-DAG and shard entries: the meta arm logs the unpin only after unpinClusterDag succeeded, which unpins every CID of the list built from the meta pin's reference and the cluster DAG's links", Run: r047})
+	register(&Rule{ID: "R04.7", Props: []string{"C04"}, Floor: 6, Title: "unpinning sharded content also unpins its cluster-DAG and shard entries: the meta arm logs the unpin only after unpinClusterDag succeeded, which unpins every CID of the list built from the meta pin's reference and the cluster DAG's links", Run: r047})
 }
 
 func r047(c *Ctx, r *R) {
@@ -574,6 +574,10 @@ func r047(c *Ctx, r *R) {
 					}
 				}
 			}
+			// a list that came with an error is partial (the reference
+			// and the meta CID without the shards): it is never used
+			complete := guardedBy(lu.Block(), func(g Guard) bool { return gCallErrNil(g, ModPath+".Cluster).cidsFromMetaPin") })
+			r.Check(complete, "unpinClusterDag:list-complete", lu.Pos(), "the listed CIDs are unpinned only when the list was computed without error", "unpinClusterDag uses the list although cidsFromMetaPin reported an error: that list is partial (cluster-DAG and meta CID, no shards), so the root and the cluster DAG are removed and every shard entry is orphaned for good")
 			r.Check(fromList, "unpinClusterDag:element", lu.Pos(), "each element of the list computed from the meta pin is unpinned", "unpinClusterDag does not unpin the elements of cidsFromMetaPin's list")
 			// the sweep is complete: the loop is left after a LogUnpin only
 			// by returning that call's error
@@ -1534,5 +1538,174 @@ func r166(c *Ctx, r *R) {
 				r.Check(ok && len(rs) > 0, key, ci.Pos(), "the request context derives from the caller's context", fmt.Sprintf("%s sends a request under a context that does not derive (only) from the caller's context %v: cancelling the tracker's operation no longer aborts the request, so an unpin that overtakes a slow pin leaves the CID pinned with status unpinned", name, rs))
 			}
 		})
+	}
+}
+
+func init() {
+	register(&Rule{ID: "R06.9", Props: []string{"C06", "C16"}, Floor: 1, Title: "the per-CID IPFS query is mode-aware: the pin/ls request PinLsCid sends is built from the recorded pin's depth/mode (a direct pin does not count for a recursive entry, as in the listing)", Run: r069})
+}
+
+func r069(c *Ctx, r *R) {
+	f := c.fn(r, "ipfsconn/ipfshttp", "Connector.PinLsCid")
+	if f == nil {
+		return
+	}
+	posts := findCalls(f, false, "ipfshttp.Connector).postCtx")
+	if len(posts) == 0 {
+		r.Und("pinlscid:request", f.Pos(), "PinLsCid sends no request through postCtx")
+		return
+	}
+	var dependsOnMode func(v ssa.Value, depth int, seen map[ssa.Value]bool) bool
+	dependsOnMode = func(v ssa.Value, depth int, seen map[ssa.Value]bool) bool {
+		if v == nil || depth > 14 || seen[v] {
+			return false
+		}
+		seen[v] = true
+		if fl, _ := fieldLoad(v); fl != nil && (fl.Name() == "MaxDepth" || fl.Name() == "Mode") {
+			return true
+		}
+		switch x := v.(type) {
+		case *ssa.Call:
+			for _, a := range x.Common().Args {
+				if dependsOnMode(a, depth+1, seen) {
+					return true
+				}
+			}
+			if x.Common().IsInvoke() {
+				return dependsOnMode(x.Common().Value, depth+1, seen)
+			}
+		case *ssa.MakeInterface:
+			return dependsOnMode(x.X, depth+1, seen)
+		case *ssa.ChangeType:
+			return dependsOnMode(x.X, depth+1, seen)
+		case *ssa.Convert:
+			return dependsOnMode(x.X, depth+1, seen)
+		case *ssa.BinOp:
+			return dependsOnMode(x.X, depth+1, seen) || dependsOnMode(x.Y, depth+1, seen)
+		case *ssa.Phi:
+			for _, e := range x.Edges {
+				if dependsOnMode(e, depth+1, seen) {
+					return true
+				}
+			}
+		case *ssa.Slice:
+			return dependsOnMode(x.X, depth+1, seen)
+		case *ssa.Alloc:
+			// a varargs array: what is stored into its elements
+			for _, ref := range *x.Referrers() {
+				if ia, ok := ref.(*ssa.IndexAddr); ok {
+					for _, r2 := range *ia.Referrers() {
+						if st, ok := r2.(*ssa.Store); ok && dependsOnMode(st.Val, depth+1, seen) {
+							return true
+						}
+					}
+				}
+			}
+		case *ssa.UnOp:
+			return dependsOnMode(x.X, depth+1, seen)
+		case *ssa.Extract:
+			return dependsOnMode(x.Tuple, depth+1, seen)
+		}
+		return false
+	}
+	for _, p := range posts {
+		path := callArgs(p.Common())[1]
+		r.Check(dependsOnMode(path, 0, map[ssa.Value]bool{}), "pinlscid:mode-aware", p.Pos(), "the pin/ls request depends on the recorded pin's depth/mode", "PinLsCid's request no longer depends on the pin's depth/mode: IPFS answers for any pin type, so a direct pin counts as 'pinned' for an entry recorded as recursive in the per-CID view while the listing reports it unexpectedly unpinned")
+	}
+}
+
+func init() {
+	register(&Rule{ID: "R03.6", Props: []string{"C03"}, Floor: 3, Title: "obtainAllocations counts like with like: `needed`/`wanted` are the factors minus the healthy current holders, and everything compared with them counts new peers only (candidates, the allocator's answer), never the current holders again", Run: r036})
+}
+
+func r036(c *Ctx, r *R) {
+	f := c.fn(r, "", "Cluster.obtainAllocations")
+	if f == nil {
+		return
+	}
+	// needed = rplMin - nCur, wanted = rplMax - nCur
+	var nCur ssa.Value
+	quota := map[ssa.Value]string{}
+	instrs(f, func(i ssa.Instruction) {
+		bo, ok := i.(*ssa.BinOp)
+		if !ok || bo.Op != token.SUB {
+			return
+		}
+		switch paramIndex(f, bo.X) {
+		case 3:
+			quota[bo] = "needed"
+			nCur = bo.Y
+		case 4:
+			quota[bo] = "wanted"
+			if nCur == nil {
+				nCur = bo.Y
+			}
+		}
+	})
+	if len(quota) < 2 || nCur == nil {
+		r.Und("quotas", f.Pos(), "needed = rplMin - current and wanted = rplMax - current not recognised in obtainAllocations")
+		return
+	}
+	// the subtrahend is the number of healthy current holders
+	isLenOfCurrent := false
+	if call, _ := originCall(nCur); call != nil && callName(call.Common()) == "builtin.len" {
+		isLenOfCurrent = true
+	}
+	r.Check(isLenOfCurrent, "quota:minus-current", nCur.Pos(), "the quotas subtract a length (the healthy current holders)", "needed/wanted no longer subtract the number of healthy current holders")
+	var dependsOn func(v, target ssa.Value, depth int) bool
+	dependsOn = func(v, target ssa.Value, depth int) bool {
+		if v == target {
+			return true
+		}
+		if depth > 8 {
+			return false
+		}
+		switch x := v.(type) {
+		case *ssa.BinOp:
+			return dependsOn(x.X, target, depth+1) || dependsOn(x.Y, target, depth+1)
+		case *ssa.Phi:
+			for _, e := range x.Edges {
+				if dependsOn(e, target, depth+1) {
+					return true
+				}
+			}
+		case *ssa.Convert:
+			return dependsOn(x.X, target, depth+1)
+		case *ssa.Call:
+			if cn := callName(x.Common()); strings.HasSuffix(cn, "minInt") || strings.HasSuffix(cn, "maxInt") {
+				for _, a := range x.Common().Args {
+					if dependsOn(a, target, depth+1) {
+						return true
+					}
+				}
+			}
+		}
+		return false
+	}
+	n := 0
+	for _, b := range f.Blocks {
+		iff, ok := b.Instrs[len(b.Instrs)-1].(*ssa.If)
+		if !ok {
+			continue
+		}
+		bo, ok := iff.Cond.(*ssa.BinOp)
+		if !ok {
+			continue
+		}
+		for _, pair := range [][2]ssa.Value{{bo.X, bo.Y}, {bo.Y, bo.X}} {
+			q, other := pair[0], pair[1]
+			name, isQ := quota[q]
+			if !isQ {
+				continue
+			}
+			if _, isK := constOf(other); isK {
+				continue // needed <= 0, wanted < 0
+			}
+			n++
+			r.Check(!dependsOn(other, nCur, 0), fmt.Sprintf("compare:%s#%d", name, n), iff.Cond.Pos(), "what is compared with "+name+" counts new peers only", "a count that includes the healthy current holders is compared with `"+name+"`, which already has them subtracted: they are counted twice, so an allocation with fewer than the minimum number of healthy holders passes the check")
+		}
+	}
+	if n < 2 {
+		r.Und("compare", f.Pos(), "fewer than two comparisons against needed/wanted found (%d)", n)
 	}
 }
